@@ -125,6 +125,9 @@ func c16Exact(ctx *core.Ctx, kind, mark string, r *ref.Rendered, lc *layoutCase)
 		return
 	}
 	ctx.Flag("c16:exact:" + kind)
+	if ctx.WantSample() && len(lc.Choices) > 0 {
+		ctx.Sample(map[string]any{"kind": "exact position of " + kind, "text": r.Text, "offending_name_at": []int{want.Line, want.Col}})
+	}
 	ctx.Nontrivial(r.Text)
 	ctx.State(kind)
 }
